@@ -172,7 +172,17 @@ def find__all__(module):
 
         return False
 
-    for node in ast.iter_child_nodes(module):
+    def module_level_statements(node):
+        # Statements that run at module level, including those nested in an if/try/with/for/while block
+        for child in ast.iter_child_nodes(node):
+            if isinstance(child, (ast.FunctionDef, ast.AsyncFunctionDef, ast.ClassDef, ast.Lambda)):
+                continue
+            if isinstance(child, ast.stmt):
+                yield child
+            for statement in module_level_statements(child):
+                yield statement
+
+    for node in module_level_statements(module):
         if not is_assign_all_node(node):
             continue
 
